@@ -753,6 +753,61 @@ def cpf_specs():
     return out
 
 
+DV = "server/enip/device.py"
+
+
+def connection_manager_specs():
+    def mk(name, schema, requires, ensures, modifies=()):
+        return Spec('Connection_Manager.produce[%s]' % name, (DV, 'Connection_Manager.produce'), params={'data': rec_param(schema)}, requires=requires,
+                    ensures=[('layout', ensures)], raises={}, modifies=list(modifies), callees=NESTED, inline=['produce'], hints=dict(funcs=WS.FUNCS),
+                    note='nested EPATH / status producers by assumed contract (opaque byte strings); scalar producers inlined. The Forward Open request '
+                         '(constructs defaults.Connection objects) and the success replies with application data are bounded-only')
+    ids = {'connection_serial': ('int', '_g_cs'), 'O_vendor': ('int', '_g_ov'), 'O_serial': ('int', '_g_os')}
+    rng = '0 <= _g_cs <= 0xffff and 0 <= _g_ov <= 0xffff and 0 <= _g_os <= 0xffffffff'
+    fc = dict(ids, priority_time_tick=('int', '_g_ptt'), timeout_ticks=('int', '_g_tt'), connection_path=('opaque', '_g_cpath'))
+    fo_fail = dict(ids, remaining_path_size=('maybe', '_g_rps_given', ('int', '_g_rps')))
+    return [
+        mk('forward_close request', {'service': ('maybe', '_g_service_given', ('const', 0x4e)), 'path': ('opaque', '_g_path'), 'forward_close': fc},
+           rng + ' and 0 <= _g_ptt <= 255 and 0 <= _g_tt <= 255',
+           'result == u8(0x4e) + _g_epath + u8(_g_ptt) + u8(_g_tt) + u16(_g_cs) + u16(_g_ov) + u32(_g_os) + _g_routepath', ['data.service']),
+    ] + [
+        mk('forward_open %s reply, failure' % nm, {'service': ('const', svc), 'status': ('int', '_g_status'), 'forward_open': fo_fail},
+           rng + ' and 1 <= _g_status <= 255 and 0 <= _g_rps <= 255',
+           'result == u8(%d) + bytes_of(0) + _g_statusbytes + u16(_g_cs) + u16(_g_ov) + u32(_g_os) + ((u8(_g_rps) + bytes_of(0)) if _g_rps_given else bytes_of())' % svc)
+        for nm, svc in (('small', 0xd4), ('large', 0xdb))
+    ] + [
+        mk('forward_open %s reply, success, no application data' % nm,
+           {'service': ('const', svc), 'status': ('const', 0), 'forward_open': dict(ids, O_T={'connection_ID': ('int', '_g_otid'), 'API': ('int', '_g_otapi')},
+                                                                                        T_O={'connection_ID': ('int', '_g_toid'), 'API': ('int', '_g_toapi')})},
+           rng + ' and 0 <= _g_otid <= 0xffffffff and 0 <= _g_toid <= 0xffffffff and 0 <= _g_otapi <= 0xffffffff and 0 <= _g_toapi <= 0xffffffff',
+           'result == u8(%d) + bytes_of(0) + _g_statusbytes + u32(_g_otid) + u32(_g_toid) + u16(_g_cs) + u16(_g_ov) + u32(_g_os) + u32(_g_otapi) + u32(_g_toapi) '
+           '+ u8(0) + bytes_of(0)' % svc, ['data.forward_open.application'])
+        for nm, svc in (('small', 0xd4), ('large', 0xdb))
+    ]
+
+
+def object_produce_specs():
+    def mk(name, schema, requires, ensures, modifies=()):
+        return Spec('Object.produce[%s]' % name, (DV, 'Object.produce'), params={'data': rec_param(schema)}, requires=requires,
+                    ensures=[('layout', ensures)], raises={}, modifies=list(modifies), callees=NESTED, inline=['produce'], hints=dict(funcs=WS.FUNCS),
+                    note='nested EPATH / typed_data / status producers by assumed contract (opaque byte strings); scalar producers inlined; '
+                         'Get Attribute List and the generic service-code forms are bounded-only')
+    path = ('opaque', '_g_path')
+    out = []
+    for nm, ctx, svc in (('get_attributes_all', 'get_attributes_all', 0x01), ('get_attribute_single', 'get_attribute_single', 0x0e)):
+        out.append(mk('%s request' % nm, {'service': ('maybe', '_g_service_given', ('const', svc)), 'path': path, ctx: ('const', True)}, 'True',
+                      'result == u8(%d) + _g_epath' % svc, ['data.service']))
+    out.append(mk('set_attribute_single request', {'service': ('maybe', '_g_service_given', ('const', 0x10)), 'path': path,
+                                                   'set_attribute_single': {'data': ('ints', '_g_data')}}, 'True',
+                  'result == u8(0x10) + _g_epath + _g_typed', ['data.service']))
+    for nm, ctx, svc in (('get_attributes_all', 'get_attributes_all', 0x81), ('get_attribute_single', 'get_attribute_single', 0x8e)):
+        out.append(mk('%s reply' % nm, {'service': ('const', svc), 'status': ('int', '_g_status'), ctx: {'data': ('ints', '_g_data')}}, '0 <= _g_status <= 255',
+                      'result == u8(%d) + bytes_of(0) + _g_statusbytes + (_g_typed if _g_status == 0 else bytes_of())' % svc))
+    out.append(mk('set_attribute_single reply', {'service': ('const', 0x90), 'status': ('int', '_g_status')}, '0 <= _g_status <= 255',
+                  'result == u8(0x90) + bytes_of(0) + _g_statusbytes'))
+    return out
+
+
 
 D = "server/enip/defaults.py"
 NCP_SMALL = "(redundant << 15) + (type << 13) + (priority << 10) + (variable << 9) + size"
@@ -988,4 +1043,4 @@ def typed_data_specs():
 
 def contracts(repo):
     return (scalar_specs() + string_specs() + [enip_encode_spec()] + logix_produce_specs() + unconnected_send_specs() + connection_specs()
-            + epath_specs() + [status_spec()] + typed_data_specs() + encapsulation_specs() + cpf_specs())
+            + epath_specs() + [status_spec()] + typed_data_specs() + encapsulation_specs() + cpf_specs() + connection_manager_specs() + object_produce_specs())
